@@ -102,6 +102,9 @@ var (
 	guardMu   sync.Mutex
 	fGuards   [][]float64 // full-capacity views
 	iGuards   [][]int
+	fOrig     [][]float64 // the contents handed over, to see whether the library changed them
+	iOrig     [][]int
+	mutOK     bool // set by an op whose API documents in-place modification (Sample.Sort, ...)
 	fSentinel = math.Float64frombits(0x7ff8dead0000beef)
 )
 
@@ -118,6 +121,7 @@ func (t Tok) Fs() []float64 {
 	}
 	guardMu.Lock()
 	fGuards = append(fGuards, buf)
+	fOrig = append(fOrig, append([]float64(nil), buf[:n]...))
 	guardMu.Unlock()
 	return buf[:n]
 }
@@ -133,6 +137,7 @@ func (t Tok) Ints() []int {
 	}
 	guardMu.Lock()
 	iGuards = append(iGuards, buf)
+	iOrig = append(iOrig, append([]int(nil), buf[:n]...))
 	guardMu.Unlock()
 	return buf[:n]
 }
@@ -140,6 +145,8 @@ func (t Tok) Ints() []int {
 func resetGuards() {
 	guardMu.Lock()
 	fGuards, iGuards = fGuards[:0], iGuards[:0]
+	fOrig, iOrig = fOrig[:0], iOrig[:0]
+	mutOK = false
 	guardMu.Unlock()
 }
 
@@ -156,6 +163,38 @@ func guardsIntact() bool {
 	for _, b := range iGuards {
 		for _, x := range b[len(b)-guardCells:] {
 			if x != iSentinel {
+				return false
+			}
+		}
+	}
+	return true
+}
+
+// allowMutation is called by ops that exercise an API documented to modify its argument in place.
+func allowMutation() {
+	guardMu.Lock()
+	mutOK = true
+	guardMu.Unlock()
+}
+
+// contentsIntact reports whether every slice handed to the library still holds what it held
+// (bit for bit) when it was handed over.
+func contentsIntact() bool {
+	guardMu.Lock()
+	defer guardMu.Unlock()
+	if mutOK {
+		return true
+	}
+	for k, b := range fGuards {
+		for i, x := range fOrig[k] {
+			if math.Float64bits(b[i]) != math.Float64bits(x) {
+				return false
+			}
+		}
+	}
+	for k, b := range iGuards {
+		for i, x := range iOrig[k] {
+			if b[i] != x {
 				return false
 			}
 		}
@@ -296,6 +335,8 @@ func execLine(line string) (out string) {
 		out := fn(toks[1:])
 		if !guardsIntact() {
 			out = "panic:" + sanitize("the library wrote past the end of a slice passed to it (into the caller's spare capacity)")
+		} else if !contentsIntact() {
+			out = "panic:" + sanitize("the library wrote past its contract: it changed the contents of a slice passed to it")
 		}
 		ch <- res{out}
 	}()
@@ -403,3 +444,132 @@ func randGridFloat(rng *rand.Rand, centre, spread float64, gridBits int) float64
 	}
 	return centre + math.Round(rng.NormFloat64()*spread/g)*g
 }
+
+// ---------- dictionary: numeric constants of the code the property reaches ----------
+//
+// tools/extract writes, on every run, the numeric literals and folded constant expressions of every
+// function reachable from the property's anchor files (VERIF_DICT) and bin/check separates those the
+// model's expectation does not list (VERIF_DICT_NEW): a cutoff, size limit or break point that a change
+// has just introduced. Generators aim sizes, arguments and thresholds at these values (and simple
+// functions of them); constants that are new get the full cross product, the others a random sample.
+
+var (
+	dictOnce           sync.Once
+	dictAllV, dictNewV []float64
+)
+
+func loadDict() {
+	dictOnce.Do(func() {
+		rd := func(env string) []float64 {
+			var out []float64
+			p := os.Getenv(env)
+			if p == "" {
+				return nil
+			}
+			b, err := os.ReadFile(p)
+			if err != nil {
+				return nil
+			}
+			for _, l := range strings.Fields(string(b)) {
+				if v, err := strconv.ParseFloat(l, 64); err == nil && !math.IsNaN(v) && !math.IsInf(v, 0) {
+					out = append(out, v)
+				}
+			}
+			return out
+		}
+		dictAllV, dictNewV = rd("VERIF_DICT"), rd("VERIF_DICT_NEW")
+	})
+}
+
+// dictShapes returns simple functions of a constant c: thresholds are often compared with a scaled,
+// squared or logged quantity
+func dictShapes(c float64) []float64 {
+	out := []float64{c, -c, c * math.Sqrt2, c / math.Sqrt2, -c * math.Sqrt2, -c / math.Sqrt2, c * c, 2 * c, c / 2, c + 1, c - 1}
+	if c > 0 {
+		out = append(out, math.Sqrt(c), 1/c, math.Log(c), -math.Log(c))
+	}
+	if math.Abs(c) < 700 {
+		out = append(out, math.Exp(c), math.Exp(-c))
+	}
+	if c == math.Trunc(c) && c >= 0 && c < 1000 {
+		out = append(out, math.Ldexp(1, int(c)), math.Ldexp(1, -int(c)))
+	}
+	return out
+}
+
+// around returns v and its neighbours a few ulps and a relative 1e-15 .. 1e-6 away
+func around(v float64) []float64 {
+	out := []float64{v}
+	lo, hi := v, v
+	for i := 0; i < 3; i++ {
+		lo, hi = math.Nextafter(lo, math.Inf(-1)), math.Nextafter(hi, math.Inf(1))
+		out = append(out, lo, hi)
+	}
+	for _, r := range []float64{1e-14, 1e-11, 1e-8, 1e-6} {
+		out = append(out, v*(1+r), v*(1-r))
+	}
+	return out
+}
+
+// dictFloats: special values aimed at the dictionary. Every constant that is new is expanded in full
+// (shapes x neighbourhood); of the others `sample` random picks are added.
+func dictFloats(rng *rand.Rand, sample int) []float64 {
+	loadDict()
+	var out []float64
+	for _, c := range dictNewV {
+		for _, s := range dictShapes(c) {
+			out = append(out, around(s)...)
+		}
+	}
+	for i := 0; i < sample && len(dictAllV) > 0; i++ {
+		sh := dictShapes(dictAllV[rng.Intn(len(dictAllV))])
+		ar := around(sh[rng.Intn(len(sh))])
+		out = append(out, ar[rng.Intn(len(ar))])
+	}
+	var fin []float64
+	for _, v := range out {
+		if !math.IsNaN(v) && !math.IsInf(v, 0) {
+			fin = append(fin, v)
+		}
+	}
+	return fin
+}
+
+// dictSizes: whole numbers in [lo,hi] aimed at the dictionary (c, c±1, c±2, 2c, c/2, 2^c, 2^c±1, sums of two
+// new constants); new constants first and in full, `sample` picks of the others.
+func dictSizes(rng *rand.Rand, lo, hi, sample int) []int {
+	loadDict()
+	seen := map[int]bool{}
+	var out []int
+	add := func(v float64) {
+		if v != math.Trunc(v) || v < float64(lo) || v > float64(hi) {
+			return
+		}
+		if n := int(v); !seen[n] {
+			seen[n] = true
+			out = append(out, n)
+		}
+	}
+	shapes := func(c float64) []float64 {
+		c = math.Trunc(c)
+		l := []float64{c, c + 1, c - 1, c + 2, c - 2, 2 * c, 2*c + 1, 2*c - 1, math.Trunc(c / 2), math.Trunc(c/2) + 1, c * c, 3 * c, 4 * c}
+		if c >= 0 && c < 40 {
+			p := math.Ldexp(1, int(c))
+			l = append(l, p, p+1, p-1, p+2, 2*p+1)
+		}
+		return l
+	}
+	for _, c := range dictNewV {
+		for _, s := range shapes(c) {
+			add(s)
+		}
+	}
+	for i := 0; i < sample && len(dictAllV) > 0; i++ {
+		sh := shapes(dictAllV[rng.Intn(len(dictAllV))])
+		add(sh[rng.Intn(len(sh))])
+	}
+	return out
+}
+
+// dictIsNew reports whether the run has constants the model's expectation does not list.
+func dictHasNew() bool { loadDict(); return len(dictNewV) > 0 }
